@@ -395,30 +395,35 @@ def emit_P(rundir, name, cterm, D, base, K, print_assumptions=True):
     return vf
 
 
-def emit_S(rundir, name, D, base, corr, api):
-    """sample lemmas: the Coq model evaluated by vm_compute against live traces / live tuples"""
-    vf = VFile(os.path.join(rundir, "S_%s.v" % name), HDR_S + ["From C17RUN Require Import T_%s." % base, "Set Default Timeout 600."])
-    for i, (h, tr) in enumerate(corr):
-        vf.add("corr_%d" % i, "Lemma corr_%d : trace (lookup table) np105 [%s] =\n  [%s].\nProof. vm_compute; reflexivity. Qed." % (
-            i, ";".join(map(str, h)), ";\n   ".join("(%s,%d,%s)" % (zl(a), m, zl(v)) for a, m, v in tr)))
-    for i, (h, p, r, t) in enumerate(api):
-        vf.add("api_%d" % i, "Lemma api_%d : mpf_eqb (mpf_const (served %d table [%s]) %d %s) (Mpf %d %s %s %d) = true.\nProof. vm_compute; reflexivity. Qed." % (
-            i, D, ";".join(map(str, h)), p, RND_COQ[r], t[0], zl(t[1]), ("(%d)" % t[2]), t[3]))
+def emit_S(rundir, groups):
+    """sample lemmas (one file): the Coq model evaluated by vm_compute against live traces / live tuples.
+    groups: list of (name, D, base, corr, api)"""
+    bases = sorted({g[2] for g in groups})
+    vf = VFile(os.path.join(rundir, "S_all.v"), HDR_S + ["From C17RUN Require %s." % " ".join("T_" + b for b in bases), "Set Default Timeout 600."])
+    for name, D, base, corr, api in groups:
+        tb = "T_%s.table" % base
+        for i, (h, tr) in enumerate(corr):
+            vf.add("%s.corr_%d" % (name, i), "Lemma %s_corr_%d : trace (lookup %s) np105 [%s] =\n  [%s].\nProof. vm_compute; reflexivity. Qed." % (
+                name, i, tb, ";".join(map(str, h)), ";\n   ".join("(%s,%d,%s)" % (zl(a), m, zl(v)) for a, m, v in tr)))
+        for i, (h, p, r, t) in enumerate(api):
+            vf.add("%s.api_%d" % (name, i), "Lemma %s_api_%d : mpf_eqb (mpf_const (served %d %s [%s]) %d %s) (Mpf %d %s %s %d) = true.\nProof. vm_compute; reflexivity. Qed." % (
+                name, i, D, tb, ";".join(map(str, h)), p, RND_COQ[r], t[0], zl(t[1]), ("(%d)" % t[2]), t[3]))
     vf.write()
     return vf
 
 
-def emit_O(rundir, name, V, mtop, Q, tab):
-    vf = VFile(os.path.join(rundir, "O_%s.v" % name), HDR_S)
-    vf.add("V", "Definition V : Z := %s." % zl(V), "def")
-    vf.add("table", "Definition table : list (Z * Z) := [%s]." % ";\n ".join("(%d,%s)" % (m, zl(v)) for m, v in sorted(tab.items())), "def")
-    vf.add("np_live", "Definition np_live : list Z := [%s]." % ";".join(str(np_py(q)) for q in range(Q + 1)), "def")
-    vf.add("np_model", "Lemma np_model : map np105 (zrange 0 (%d + 1)) = np_live.\nProof. vm_compute; reflexivity. Qed." % Q)
-    vf.add("cons", "Lemma cons : check_consistent V %d %d table = true.\nProof. vm_cast_no_check (eq_refl true). Qed." % (mtop, Q))
-    vf.add("consistent",
-           "Theorem %s_consistent : forall h q, Forall (fun x => 0 <= x <= %d) h -> 0 <= q <= %d ->\n"
-           "  near1 (answer (lookup table) np105 h q) (Z.shiftr V (%d - q)) = true.\n"
-           "Proof. exact (memo_consistent V %d %d table cons). Qed." % (name, Q, Q, mtop, mtop, Q))
+def emit_O(rundir, oth):
+    """consistency certificates of the seven constants without a formal definition (one file, one Module each)"""
+    vf = VFile(os.path.join(rundir, "O_all.v"), HDR_S)
+    for name, (Q, reach, tab, mtop, V) in oth.items():
+        vf.add(name + ".defs", "Module %s.\nDefinition V : Z := %s.\nDefinition table : list (Z * Z) := [%s].\nDefinition np_live : list Z := [%s]." % (
+            name, zl(V), ";\n ".join("(%d,%s)" % (m, zl(v)) for m, v in sorted(tab.items())), ";".join(str(np_py(q)) for q in range(Q + 1))), "def")
+        vf.add(name + ".np_model", "Lemma np_model : map np105 (zrange 0 (%d + 1)) = np_live.\nProof. vm_compute; reflexivity. Qed." % Q)
+        vf.add(name + ".cons", "Lemma cons : check_consistent V %d %d table = true.\nProof. vm_cast_no_check (eq_refl true). Qed." % (mtop, Q))
+        vf.add(name + ".consistent",
+               "Theorem consistent : forall h q, Forall (fun x => 0 <= x <= %d) h -> 0 <= q <= %d ->\n"
+               "  near1 (answer (lookup table) np105 h q) (Z.shiftr V (%d - q)) = true.\n"
+               "Proof. exact (memo_consistent V %d %d table cons). Qed.\nEnd %s." % (Q, Q, mtop, mtop, Q, name))
     vf.write()
     return vf
 
@@ -664,8 +669,8 @@ def others_observe(rep, rng, name, Q7, reach, tab, mtop, V, tier_):
     P7 = Q7 - 20
     n = 0; worst = Fraction(0)
     ps = list(range(1, P7 + 1))
-    if tier_ == "quick" and len(ps) > 250:
-        ps = sorted(rng.sample(ps, 250))
+    if tier_ == "quick" and len(ps) > 100:
+        ps = sorted(rng.sample(ps, 100))
     try:
         for p in ps:
             for r in ("n", rng.choice("fcdu")):
@@ -743,8 +748,8 @@ def run(rep, tier_, rng):
 
     # ---- (e) tables of the other seven, their Coq files
     oth = others_tables(tier_)
-    Ofiles = {name: emit_O(rundir, name, V, mtop, Q7, tab) for name, (Q7, reach7, tab, mtop, V) in oth.items()}
-    Ofut = {name: pool.submit(coqc, Ofiles[name].path, tmo) for name in oth}
+    Ofile = emit_O(rundir, oth)
+    Ofut = pool.submit(coqc, Ofile.path, tmo)
 
     T = {"tables_and_emit": round(time.time() - t0, 1)}; tm = time.time()
     # ---- (c) correspondence of the memo state machine
@@ -771,10 +776,15 @@ def run(rep, tier_, rng):
     Dfut = pool.submit(coqc, Dfile.path, tmo)
 
     # ---- sample files (Coq evaluates the model on the recorded histories)
-    Sfiles = {}; Sfut = {}
-    for name, cterm, D, base in ELEM:
-        Sfiles[name] = emit_S(rundir, name, D, base, corr_samples.get(name, []) if D == 1 else [], api_samples[name])
-        Sfut[name] = pool.submit(after_T, base, Sfiles[name].path)
+    Sfile = emit_S(rundir, [(name, D, base, corr_samples.get(name, []) if D == 1 else [], api_samples[name]) for name, cterm, D, base in ELEM])
+
+    def after_all_T(path):
+        for b in tabs:
+            r = Tfut[b].result()
+            if r["rc"] != 0:
+                return dict(r, skipped=True)
+        return coqc(path, tmo)
+    Sfut = pool.submit(after_all_T, Sfile.path)
 
     T["defconst_and_samples_emit"] = round(time.time() - tm, 1); tm = time.time()
     # ---- (e) observed final values of the other seven
@@ -810,19 +820,19 @@ def run(rep, tier_, rng):
             ax = axioms_of(r["out"]); run_axioms |= ax
         else:
             diagnose(rep, name, cterm, D, base, enc[base], Q, tabs[base], mir, badl, r)
+    r = Sfut.result(); cmds.append(r["cmd"])
+    lem = [it[0] for it in Sfile.items if it[3] == "lemma"]
+    obligations += len(lem)
+    okl, badl = Sfile.classify(r)
+    if r.get("skipped"):
+        okl, badl = [], "table file"
+    discharged += len(okl)
     for name, cterm, D, base in ELEM:
-        vf = Sfiles[name]; r = Sfut[name].result(); cmds.append(r["cmd"])
-        lem = [it[0] for it in vf.items if it[3] == "lemma"]
-        obligations += len(lem)
-        okl, badl = vf.classify(r)
-        if r.get("skipped"):
-            okl, badl = [], "table file"
-        discharged += len(okl)
-        per_const[name]["sample_lemmas"] = len(lem); per_const[name]["sample_lemmas_proved"] = len(okl)
-        if badl is not None and lem:
-            rep.violation("C17 %s: the Coq model evaluated by vm_compute disagrees with a recorded live trace/tuple (%s) although the "
-                          "Python mirror agreed" % (name, badl),
-                          {"theorem": "S_%s.v: %s" % (name, badl), "log": r["out"][-1500:]}, no_input=True)
+        per_const[name]["sample_lemmas"] = sum(1 for x in lem if x.startswith(name + "."))
+        per_const[name]["sample_lemmas_proved"] = sum(1 for x in okl if x.startswith(name + "."))
+    if badl is not None and lem:
+        rep.violation("C17: the Coq model evaluated by vm_compute disagrees with a recorded live trace/tuple (%s) although the "
+                      "Python mirror agreed" % badl, {"theorem": "S_all.v: %s" % badl, "log": r["out"][-1500:]}, no_input=True)
     rD = Dfut.result(); cmds.append(rD["cmd"])
     obligations += 1
     okl, badl = Dfile.classify(rD)
@@ -832,23 +842,26 @@ def run(rep, tier_, rng):
         rep.violation("C17 def_mpf_constant: the Coq model evaluated by vm_compute disagrees with live results although the Python mirror agreed",
                       {"theorem": "D_defconst.v: defconst_live", "log": rD["out"][-1500:]}, no_input=True)
     cons = {}
+    r = Ofut.result(); cmds.append(r["cmd"])
+    lemO = [it[0] for it in Ofile.items if it[3] == "lemma"]
+    obligations += len(lemO)
+    oklO, badO = Ofile.classify(r)
+    discharged += len(oklO)
     for name in oth:
-        vf = Ofiles[name]; r = Ofut[name].result(); cmds.append(r["cmd"])
-        lem = [it[0] for it in vf.items if it[3] == "lemma"]
-        obligations += len(lem)
-        okl, badl = vf.classify(r)
-        discharged += len(okl)
-        cons[name] = dict(obs[name], proved=okl, failed=badl, coq_secs=r["secs"])
-        if badl is not None:
-            Q7, reach7, tab, mtop, V = oth[name]
-            worst = [(m, tab[m] - (V >> (mtop - m))) for m in sorted(tab) if abs(tab[m] - (V >> (mtop - m))) > 1]
-            if worst:
-                m, d = worst[0]
-                rep.violation("C17 %s_fixed(%d) differs by %d units from the value computed at %d bits: answers depend on the history"
-                              % (name, m, d, mtop), {"fn": name + "_fixed", "regime": "history-consistency", "m": m, "diff": d, "top": mtop})
-            else:
-                rep.violation("C17 %s: consistency certificate failed (%s)" % (name, badl),
-                              {"theorem": "O_%s.v: %s" % (name, badl), "log": r["out"][-1500:]}, no_input=True)
+        okn = [x.split(".", 1)[1] for x in oklO if x.startswith(name + ".")]
+        failed_here = None if len(okn) == 3 else (badO if badO and badO.startswith(name + ".") else "not reached (an earlier module failed)")
+        cons[name] = dict(obs[name], proved=okn, failed=failed_here, coq_secs=r["secs"])
+        Q7, reach7, tab, mtop, V = oth[name]
+        worst = [(m, tab[m] - (V >> (mtop - m))) for m in sorted(tab) if abs(tab[m] - (V >> (mtop - m))) > 1]
+        if worst:
+            m, d = worst[0]
+            rep.violation("C17 %s_fixed(%d) differs by %d units from the value computed at %d bits: answers depend on the history"
+                          % (name, m, d, mtop), {"fn": name + "_fixed", "regime": "history-consistency", "m": m, "diff": d, "top": mtop})
+        elif badO is not None and badO.startswith(name + "."):
+            rep.violation("C17 %s: consistency certificate failed (%s)" % (name, badO),
+                          {"theorem": "O_all.v: %s" % badO, "log": r["out"][-1500:]}, no_input=True)
+    if badO == "?":
+        rep.violation("C17: consistency certificates did not compile", {"theorem": "O_all.v", "log": r["out"][-1500:]}, no_input=True)
     pool.shutdown()
     T["waiting_for_coq"] = round(time.time() - tm, 1)
     bad_run = sorted(a for a in run_axioms if a not in ALLOWED_AXIOMS and not a.startswith(("Uint63.", "PrimInt63.", "PrimFloat.", "FloatAxioms.", "Sint63.")))
@@ -1014,16 +1027,17 @@ def replay(rep, path):
                 rep.violation("C17 %s_fixed: memoised function disagrees with the verified state machine at request %d" % (base, i), r)
                 break
         reset_memo(f)
-    elif "prec" in r and "rounding" in r:
+    elif "prec" in r:
         from mpmath import libmp
         low = getattr(libmp, "mpf_" + name)
-        reset_memo(f)
-        for q in hist:
-            g(q)
-        t = tuple(low(int(r["prec"]), r["rounding"])); reset_memo(f)
-        e = expected_round(A, K, D, int(r["prec"]), r["rounding"])
         if "encl" not in okl:
             rep.violation("C17 replay: enclosure not proved", {"theorem": "P_%s.v" % name, "log": rp["out"][-800:]}, no_input=True)
-        elif t != e:
-            rep.violation("C17 %s: value at prec %s rounding %r after history %s is not correctly rounded" % (name, r["prec"], r["rounding"], hist), r)
+        for md in ([r["rounding"]] if r.get("rounding") else ["f", "c"]):        # iv.<name>: floor and ceiling
+            reset_memo(f)
+            for q in hist:
+                g(q)
+            t = tuple(low(int(r["prec"]), md)); reset_memo(f)
+            e = expected_round(A, K, D, int(r["prec"]), md)
+            if t != e and "encl" in okl:
+                rep.violation("C17 %s: value at prec %s rounding %r after history %s is not correctly rounded" % (name, r["prec"], md, hist), r)
     rep.coverage = cov
